@@ -11,11 +11,12 @@
   its own property and no span's user ctxt props use `id` or an id key (the macro call sites cannot).
 
   OBLIGATIONS (audited by `check` with `#print axioms`):
-    sequential_view, revert_on_end, thread_independent, carried_frame_is_transparent, trace_tree,
+    sequential_view, revert_on_end, revert_on_end_is_exit_restores, thread_independent, carried_frame_is_transparent, trace_tree,
     driver_trace_tree, one_trace, one_traceL, one_trace_root, parent_is_enclosing, ids_resolveL, span_idsL,
     ids_distinct, rng_zero_absent  (+ EmitModel.Span.runT_eq_spec, runL_eq_spec, spec_eq_ref, specL_eq_refL, current_push)
 -/
 import EmitModel.Lemmas.Span
+import EmitModel.Thm.C03
 namespace EmitModel.C04
 open EmitModel.Ctxt EmitModel.Span
 
@@ -34,6 +35,27 @@ theorem revert_on_end (ts : List Tree) (t c : Nat) (s : St IdVal) (n : Nat) (t' 
     current (((runL t c ts s n).2.1.active t c).getD []) = current ((s.active t c).getD []) := by
   have h := (runL_eq_spec ts t c s n).2.active
   exact ⟨h t' c', by rw [h t c]⟩
+
+/-- **revert_on_end is C03's exit_restores.** What `runL` does to the machine is the execution (`exec`) of a list
+    of C03 events (`evsL`: every span = open, enter, body, completion read, exit; every carried body = open a
+    `Frame::current`, enter/exit on the other thread) that is a WELL-NESTED, BALANCED block of the C03 discipline
+    from any consistent bookkeeping `g` whose handles from `n` on are unused. So the C03 theorems apply to span
+    trees verbatim: `exit_restores` gives that every thread sees what it saw before, and every frame holds its
+    own view again. -/
+theorem revert_on_end_is_exit_restores (ts : List Tree) (t c : Nat) (s : St IdVal) (n : Nat) (g : G IdVal)
+    (hi : Inv s g) (hf : FreshFrom g n) :
+    exec s (evsL t c ts s n) = (runL t c ts s n).2.1 ∧
+    ∃ g', run s g (evsL t c ts s n) = some ((runL t c ts s n).2.1, g') ∧ g'.stack = g.stack ∧
+      (∀ t' c', (runL t c ts s n).2.1.active t' c' = s.active t' c') ∧
+      (∀ f c', g'.ctxtOf f = some c' → g'.loc f = none → ((runL t c ts s n).2.1.slot f).get = g'.view f) := by
+  obtain ⟨g', hr, hst, _⟩ := evsL_wellNested ts t c s n g hi hf
+  rw [exec_evsL] at hr
+  obtain ⟨h1, _, _, h4⟩ := C03.exit_restores s g hi _ _ g' hr hst
+  exact ⟨exec_evsL ts t c s n, g', hr, hst, h1, h4⟩
+
+/-- non-vacuity of the hypotheses: the pristine machine with the empty bookkeeping -/
+example : Inv (St.init IdVal true) (C03.G0 IdVal) ∧ FreshFrom (C03.G0 IdVal) 0 :=
+  ⟨C03.inv_init true, fun _ _ => rfl⟩
 
 /-- The records depend on the ambient map only — not on the thread the tree runs on, nor on the rest of the
     machine state (other threads, other contexts, frame slots, handle counter). -/
